@@ -1,17 +1,21 @@
 // C09: macro expansion kernels of preprocess.c.
 //  (1) hide-set algebra: real hideset_union / hideset_intersection / hideset_contains on symbolic
 //      lists (<= 3 elements) over a 3-name pool, against set algebra.
-//  (2) real subst() on a symbolic function-like macro body (<= MAXBODY tokens from
-//      {x, y, #, ##, a, ','}) with each of the two arguments independently empty or one token,
-//      against a reference written from C11 6.10.3.1-3 (placemarker semantics).
+//  (2) real subst() on function-like macro bodies over {x, y, #, ##, a, ','} with each of the two
+//      arguments independently empty or one token (symbolic), against a reference written from
+//      C11 6.10.3.1-3 (placemarker semantics).  The body is one of the shapes of shapes.inc
+//      (enumerated exhaustively to a stated bound; IN.shape selects it, each harness function
+//      covers a batch of 16 shapes and is explored case by case with a concrete body — a fully
+//      symbolic body makes cbmc's pointer reasoning over the copied token lists intractable).
 //  (3) termination + completeness of rescanning: real preprocess2/expand_macro over <= 3 mutually
 //      referential object-like macros with symbolic bodies of 1..2 tokens; the unwinding assertions
 //      at the hide-set-derived bound are the termination claim.
-#ifndef MAXBODY
-#define MAXBODY 5
-#endif
+#define MAXBODY 6
 #define VERIF_PACKED_SPELLING 1
 #define VERIF_TOKENIZE(file) verif_tokenize_one(file)
+// in cbmc mode exit() ends the path: "no diagnostic" must be asserted AT the exit
+static int expect_no_diag;
+#define VERIF_ON_EXIT(code) VASSERT(!expect_no_diag, "no diagnostic on a well-formed macro invocation / input (C11 6.10.3.3p2-3 placemarkers)")
 #include "common.h"
 #include "pp_env.h"
 #include "preprocess.c"
@@ -22,6 +26,7 @@ struct IN_t {
   // (1)
   unsigned char n1, n2, e1[3], e2[3], q;
   // (2)
+  unsigned short shape;
   unsigned char nbody, body[MAXBODY], xempty, yempty;
   // (3)
   unsigned char mlen[3], mbody[3][2], start;
@@ -189,13 +194,31 @@ static int reference(void) {
   return 1;
 }
 
-static int subst_expect_diag;
-void h_subst(void) {
+typedef struct { unsigned char n, b[MAXBODY]; } Shape;
+static const Shape shape_tab[] = {
+#define SHAPE_TABLE
+#include "shapes.inc"
+#undef SHAPE_TABLE
+};
+#define NSHAPES ((int)(sizeof shape_tab / sizeof shape_tab[0]))
+#define BATCHSZ 16
+static void run_shape(void);
+static void run_batch(int j) {
   HAVOC_IN();
-  __CPROVER_assume(IN.nbody >= 1 && IN.nbody <= MAXBODY && IN.xempty <= 1 && IN.yempty <= 1);
-  for (int i = 0; i < MAXBODY; i++) __CPROVER_assume(IN.body[i] < B_N);
+  __CPROVER_assume(IN.xempty <= 1 && IN.yempty <= 1);
+  int k = IN.shape;
+  __CPROVER_assume(k >= j * BATCHSZ && k < (j + 1) * BATCHSZ && k < NSHAPES);
+  for (int i = j * BATCHSZ; i < (j + 1) * BATCHSZ; i++) {
+    if (i >= NSHAPES || k != i) continue;
+    IN.nbody = shape_tab[i].n;                      // concrete body inside this case
+    for (int t = 0; t < MAXBODY; t++) IN.body[t] = shape_tab[i].b[t];
+    run_shape();
+    return;
+  }
+}
+static void run_shape(void) {
   int r = reference();
-  __CPROVER_assume(r != 2);
+  if (r == 2) { VCOVER(); return; }   // undefined behaviour (pasting does not yield one valid token): nothing claimed
   // body
   for (int i = 0; i < MAXBODY; i++) {
     if (i >= IN.nbody) continue;
@@ -220,13 +243,13 @@ void h_subst(void) {
   ay.tok = take_list();
   ax.next = &ay;
   Token *out = NULL;
+  expect_no_diag = r == 1;
+  if (r == 0) VCOVER();        // (the diagnostic ends the path: the vacuity witness for ill-formed bodies sits before the call)
   TRY(out = subst(body, &ax));
   if (r == 0) {
     VASSERT(verif_diag, "ill-formed replacement list (# without parameter, ## at an end) is diagnosed");
-    if (!verif_diag) { VCOVER(); }
     return;
   }
-  VASSERT(!verif_diag, "a well-formed invocation is accepted (placemarkers: C11 6.10.3.3p2-3)");
   if (verif_diag) return;
   Token *t = out;
   for (int k = 0; k < MAXBODY + 1; k++) {
@@ -239,6 +262,9 @@ void h_subst(void) {
   VASSERT(t->kind == TK_EOF, "no extra token in the replacement");
   VCOVER();
 }
+
+#define BATCH_FN(j) void h_sb_##j(void) { run_batch(j); }
+#include "shapes.inc"
 
 // ================================================================ (3) termination of mutual recursion
 enum { T_M0, T_M1, T_M2, T_PLAIN, T_N };
@@ -271,7 +297,10 @@ void h_terminate(void) {
   mk(TK_IDENT, mname[IN.start], 2, false);
   mk(TK_EOF, "", 0, false);
   Token *in = take_list();
-  Token *out = preprocess2(in);       // termination == the unwinding assertions of this call
+  expect_no_diag = 1;
+  Token *out = NULL;
+  TRY(out = preprocess2(in));         // termination == the unwinding assertions of this call
+  if (verif_diag) return;
   // rescanning is complete: what is left is plain text or a macro name painted by its own hide set
   int n = 0;
   for (Token *t = out; n < 9 && t->kind != TK_EOF; t = t->next, n++) {
